@@ -552,4 +552,76 @@ func runC18(c *Ctx) {
 		}
 		c.check(good, key, instrPos(in), "a non-nil error leads to an error return", "the error of this address-parsing step does not lead to an error return: an address that cannot be honoured is silently accepted")
 	})
+
+	// ---------------------------------------------------------------- R7
+	c.rule("R7", "the bootstrap resolver created for an upstream carries that upstream's own host and port: New returns its own allocation, host/port fields are set only there, from the parameters, and the resolved address is joined with that port", 4)
+	const relBootstrap = "pkg/upstream/bootstrap"
+	if nf := c.fn(relBootstrap, "", "New"); nf != nil {
+		c.see(nf)
+		var alloc *ssa.Alloc
+		good, n := true, 0
+		why := ""
+		for _, r := range returnsOf(nf) {
+			rv := returnedValues(r)
+			if len(rv) == 0 || isNilConst(rv[0]) {
+				continue
+			}
+			n++
+			al, ok := rv[0].(*ssa.Alloc)
+			if !ok || al.Parent() != nf {
+				good, why = false, "New returns "+exprStr(rv[0])+", not the resolver it allocated for this call"
+				continue
+			}
+			alloc = al
+		}
+		c.check(good && n > 0, "own-allocation@bootstrap.New", nf.Pos(), "every non-nil result is the Bootstrap allocated by this call", why+": an upstream can get a resolver that was built for another upstream's port, and then dials <resolved ip>:<the other port>")
+		// fields from parameters
+		ww := p.whoWrites()
+		for _, fd := range []struct {
+			name string
+			from func(v ssa.Value) bool
+			desc string
+		}{
+			{"port", func(v ssa.Value) bool { return v == ssa.Value(nf.Params[1]) }, "the port parameter"},
+			{"fqdn", func(v ssa.Value) bool {
+				cl, ok := v.(*ssa.Call)
+				return ok && callName(cl) == "github.com/miekg/dns.Fqdn" && cl.Call.Args[0] == ssa.Value(nf.Params[0])
+			}, "dns.Fqdn(host parameter)"},
+		} {
+			ws := ww.byField[relBootstrap+".Bootstrap."+fd.name]
+			okW := len(ws) == 1
+			for _, w := range ws {
+				if w.Fn != nf || w.Val == nil || !fd.from(w.Val) {
+					okW = false
+				}
+				if fa, ok := w.Instr.(*ssa.Store); ok && alloc != nil {
+					if a2, ok := fa.Addr.(*ssa.FieldAddr); !ok || a2.X != ssa.Value(alloc) {
+						okW = false
+					}
+				}
+			}
+			c.check(okW, "field:"+fd.name+"@bootstrap.New", nf.Pos(), "Bootstrap."+fd.name+" is set once, in New, from "+fd.desc, "Bootstrap."+fd.name+" is not set exactly once in New from "+fd.desc)
+		}
+		// the resolved address is joined with sp.port
+		ws := ww.byField[relBootstrap+".Bootstrap.addrStr"]
+		okA := len(ws) > 0
+		for _, w := range ws {
+			found := false
+			tr := p.newTracer()
+			tr.throughCalls, tr.throughParams, tr.throughFields = false, false, false
+			tr.argsThrough = map[string]bool{"(net/netip.AddrPort).String": true}
+			for _, o := range tr.origins(w.Val) {
+				if cl, ok := o.(*ssa.Call); ok && callName(cl) == "net/netip.AddrPortFrom" {
+					if k, ok := loadedField(cl.Call.Args[1]); ok && k == relBootstrap+".Bootstrap.port" {
+						found = true
+					}
+				}
+			}
+			if !found {
+				okA = false
+			}
+		}
+		c.check(okA, "addr-joined-with-own-port", nf.Pos(), "the resolved address is AddrPortFrom(ip, sp.port)", "the resolver's address string is not the resolved ip joined with its own port field")
+	}
+
 }
